@@ -158,3 +158,38 @@ Proof.
     destruct Ho as [b [<- _]]. reflexivity.
   - rewrite lookup_remove, Nat.eqb_refl. reflexivity.
 Qed.
+
+(** ** the documented exception touches nothing but the named file and its temporary file *)
+Definition op_names (o : op) : list name :=
+  match o with
+  | CreateTmp t | Append t _ | Unlink t => [t]
+  | Rename t p => [t; p]
+  | Chmod p _ => [p]
+  end.
+
+Lemma step_frame d o q : ~ In q (op_names o) -> lookup (step d o) q = lookup d q.
+Proof.
+  intros H. destruct o as [t|t b|t p|p m|t]; cbn [op_names In] in H; cbn [step].
+  - rewrite lookup_set. destruct (Nat.eqb_spec q t); [subst; tauto|reflexivity].
+  - destruct (lookup d t); [|reflexivity]. rewrite lookup_set. destruct (Nat.eqb_spec q t); [subst; tauto|reflexivity].
+  - destruct (lookup d t); [|reflexivity]. rewrite lookup_set. destruct (Nat.eqb_spec q p); [subst; tauto|].
+    rewrite lookup_remove. destruct (Nat.eqb_spec q t); [subst; tauto|reflexivity].
+  - destruct (lookup d p); [|reflexivity]. rewrite lookup_set. destruct (Nat.eqb_spec q p); [subst; tauto|reflexivity].
+  - rewrite lookup_remove. destruct (Nat.eqb_spec q t); [subst; tauto|reflexivity].
+Qed.
+
+Lemma run_ops_frame ops q : (forall o, In o ops -> ~ In q (op_names o)) -> forall d, lookup (run_ops d ops) q = lookup d q.
+Proof.
+  unfold run_ops. induction ops as [|o ops IH]; intros H d; [reflexivity|]. cbn [fold_left].
+  rewrite IH by (intros o' Ho'; apply H; right; exact Ho'). apply step_frame. apply H. left. reflexivity.
+Qed.
+
+Theorem in_place_frame (j : job) (d : dir) q : q <> j_path j -> q <> j_tmp j ->
+  lookup (run_ops d (ops_of j)) q = lookup d q.
+Proof.
+  intros Hp Ht. apply run_ops_frame. intros o Ho. unfold ops_of in Ho. cbn [In] in Ho.
+  destruct Ho as [<-|Ho]; [cbn; intuition congruence|]. apply in_app_or in Ho as [Ho|Ho].
+  - apply in_map_iff in Ho as (b & <- & _). cbn. intuition congruence.
+  - destruct (j_ok j); cbn [In] in Ho; destruct Ho as [<-|Ho]; try (cbn; intuition congruence);
+      destruct Ho as [<-|[]]; cbn; intuition congruence.
+Qed.
